@@ -734,6 +734,21 @@ func (c *DefaultCtx) IP() string {
 	return c.fasthttp.RemoteIP().String()
 }
 
+// isIPv6 reports whether s is an IPv6 address in one of the RFC 4291 text forms.
+// utils.IsIPv6 bounds the value of a group but not its length ("0:0:0:0:0:0:0:00001" passes),
+// so groups of more than four digits are refused here first. It makes no allocations.
+func isIPv6(s string) bool {
+	digits := 0
+	for i := 0; i < len(s); i++ {
+		if s[i] == ':' || s[i] == '.' {
+			digits = 0
+		} else if digits++; digits > 4 {
+			return false
+		}
+	}
+	return utils.IsIPv6(s)
+}
+
 // extractIPsFromHeader will return a slice of IPs it found given a header name in the order they appear.
 // When IP validation is enabled, any invalid IPs will be omitted.
 func (c *DefaultCtx) extractIPsFromHeader(header string) []string {
@@ -782,7 +797,7 @@ iploop:
 
 		if c.app.config.EnableIPValidation {
 			// Skip validation if IP is clearly not IPv4/IPv6, otherwise validate without allocations
-			if (!v6 && !v4) || (v6 && !utils.IsIPv6(s)) || (v4 && !v6 && !utils.IsIPv4(s)) {
+			if (!v6 && !v4) || (v6 && !isIPv6(s)) || (v4 && !v6 && !utils.IsIPv4(s)) {
 				continue iploop
 			}
 		}
@@ -831,7 +846,7 @@ func (c *DefaultCtx) extractIPFromHeader(header string) string {
 			s := utils.TrimRight(headerValue[i:j], ' ')
 
 			if c.app.config.EnableIPValidation {
-				if (!v6 && !v4) || (v6 && !utils.IsIPv6(s)) || (v4 && !v6 && !utils.IsIPv4(s)) {
+				if (!v6 && !v4) || (v6 && !isIPv6(s)) || (v4 && !v6 && !utils.IsIPv4(s)) {
 					continue iploop
 				}
 			}
